@@ -323,8 +323,8 @@ func listingLen(s *uichk.Session) (int, int, bool) { return 0, 0, false }
 
 func main() {
 	mon.Main(mon.Spec{
-		Prop: "C24",
-		Rule: "case = (view state, granted height): listing views of generated programs (incl. tiny ones) at every cursor position, memory views over generated sparse/overlay/absent memories at every cursor, register views over 0..40 constant registers with and without the instruction pointer and with over-wide values, and the composite screens of the disassembler, emulator and memory-view modes reached by driving real commands (each session re-renders two fixed heights after every command, emulator sessions keep stepping); heights from the declared minimum to the maximum (200 when unbounded; all of them for small listings and in the thorough tier, min/max/4 random otherwise); non-trivial = listing state with the cursor in the last n rows or n below the content height, any memory/register/screen state; distinct by state",
+		Prop:        "C24",
+		Rule:        "case = (view state, granted height): listing views of generated programs (incl. tiny ones) at every cursor position, memory views over generated sparse/overlay/absent memories at every cursor, register views over 0..40 constant registers with and without the instruction pointer and with over-wide values, and the composite screens of the disassembler, emulator and memory-view modes reached by driving real commands (each session re-renders two fixed heights after every command, emulator sessions keep stepping); heights from the declared minimum to the maximum (200 when unbounded; all of them for small listings and in the thorough tier, min/max/4 random otherwise); non-trivial = listing state with the cursor in the last n rows or n below the content height, any memory/register/screen state; distinct by state",
 		Explanation: "oracle: rows written = newlines in the captured stdout (+1 for a trailing partial row); Print must not panic, must write at most the granted rows, and a view whose declared minimum equals its maximum must write exactly that many rows; composite screens are judged for panic and row count only",
 		Assumptions: []string{"views reached through verif hooks; stdout captured through a redirected os.Stdout", "register states hold constants only (documented requirement)"},
 		Cases: func(t string) int {
